@@ -77,6 +77,7 @@ class Session:
 def run_check(pid, tier, seed):
     from pyvc import loader as ldr, verify, backends, contract, lemma as lem, npstub
     S = Session(pid, tier, seed)
+    _clean_scratch()
     try:
         pm = importlib.import_module("props." + pid)
     except ModuleNotFoundError as e:
@@ -278,6 +279,22 @@ def run_check(pid, tier, seed):
     return 0, S, ev
 
 
+def _clean_scratch(own=False):
+    """scratch directories .work/<name>_<pid>: remove this process' own ones, or those of processes that are gone"""
+    import re
+    import shutil
+    base = os.path.join(ROOT, ".work")
+    if not os.path.isdir(base):
+        return
+    for d in os.listdir(base):
+        m = re.match(r"^.+_(\d+)$", d)
+        if not m or not os.path.isdir(os.path.join(base, d)):
+            continue
+        pid = int(m.group(1))
+        if (own and pid == os.getpid()) or (not own and not os.path.exists("/proc/%d" % pid)):
+            shutil.rmtree(os.path.join(base, d), ignore_errors=True)
+
+
 def _job(job):
     """worker: verify one function case / one lemma / run the bounded stand-in; returns plain data"""
     pid, kind, name, case, t_z3, inner = job
@@ -292,10 +309,34 @@ def _job(job):
             return {"bres": pm.bounded(name, case) if hasattr(pm, "bounded") else None}
         except Exception as e:
             return {"bres": None, "error": "".join(traceback.format_exception(type(e), e, e.__traceback__))[-3000:]}
+        finally:
+            _clean_scratch(own=True)
     for sc in pm.SIDECARS:
         importlib.import_module(sc)
     L = ldr.Loader(overrides=getattr(pm, "OVERRIDES", {}), symbolic=getattr(pm, "SYMBOLIC_MODULES", ()))
     session._LOADER[0] = L
+    import signal as _sg2
+
+    class _ExploreTimeout(BaseException):
+        pass
+
+    def _on_alarm(signum, frame):
+        raise _ExploreTimeout()
+    budget = int(os.environ.get("PYVC_EXPLORE_BUDGET_S", "420" if t_z3 <= 40000 else "1800"))
+    _sg2.signal(_sg2.SIGALRM, _on_alarm)
+    _sg2.alarm(budget)
+    try:
+        return _job_body(pid, kind, name, case, L, verify, lem, contract, backends, npstub)
+    except _ExploreTimeout:
+        label = name if not case else "%s[%s]" % (name, ",".join("%s=%s" % kv for kv in sorted(case.items())))
+        return {"label": label if kind == "func" else "lemma:" + name, "paths": 0,
+                "out_of_reach": "symbolic exploration exceeded its budget of %d s" % budget, "error": None, "vacuous": False,
+                "time": float(budget), "vcs": [], "used": sorted(npstub.USED), "sha": L.sha, "dropped": L.dropped, "case": case}
+    finally:
+        _sg2.alarm(0)
+
+
+def _job_body(pid, kind, name, case, L, verify, lem, contract, backends, npstub):
     if kind == "func":
         con = contract.REGISTRY[name]
         label = name if not case else "%s[%s]" % (name, ",".join("%s=%s" % kv for kv in sorted(case.items())))
